@@ -47,10 +47,21 @@ def shards(tier):
     return 16
 
 
-def judge(ctx, p):
+def judge(ctx, p, rng=None):
+    judge_one(ctx, p, p.exp, p.obs, "")
+    if rng is None or rng.random() >= 0.12:
+        return
+    # the same pair through the other ways in: a path, a file beyond
+    # 64 KiB, a real open file, a load with command-line overrides
+    want = [rng.choice(["path", "padded", "fobj"]), "override"]
+    for label, exp, obs in cc.entry_variants(ctx, p, rng, want):
+        ctx.res.count("entry_" + label.split()[0])
+        judge_one(ctx, p, exp, obs, label)
+
+
+def judge_one(ctx, p, exp, obs, entry):
     res = ctx.res
     res.evaluations += 1
-    exp, obs = p.exp, p.obs
     if exp[0] == "unjudged":
         res.count("unjudged")
         res.count("unjudged:" + cc.why_slug(exp[1]))
@@ -66,6 +77,9 @@ def judge(ctx, p):
                 "expected": list(exp[:1]) + ([exp[1], exp[2]]
                                              if exp[0] == "reject" else [])},
                1)
+    if entry:
+        case = dict(p.case(), entry=entry)
+        p = _Shim(p, case)
     if exp[0] == "accept":
         if obs[0] != "ok":
             res.violate("rejected-although-conforming", p.case(), "accept",
@@ -86,10 +100,25 @@ def judge(ctx, p):
                         vsig="nc|%s|%s" % (obs[2], why))
 
 
+class _Shim:
+    def __init__(self, p, case):
+        self.__dict__.update(p.__dict__)
+        self._case = case
+
+    def case(self):
+        return self._case
+
+
 def run_shard(ctx):
+    rng = ctx.rng("entries")
     for p in cc.pairs(ctx, N_MODELS[ctx.tier], TEXTS[ctx.tier]):
-        judge(ctx, p)
+        judge(ctx, p, rng)
 
 
 def replay(ctx, case):
-    judge(ctx, cc.replay_pair(case))
+    p = cc.replay_pair(case)
+    if case.get("entry"):
+        exp, obs = cc.replay_entry(ctx, p, case)
+        judge_one(ctx, p, exp, obs, case["entry"])
+    else:
+        judge(ctx, p)
